@@ -197,6 +197,16 @@ Example C02_list_example :
                             SetGaid GNone; IAdd [1%nat]]) = true.
 Proof. vm_compute. repeat split; reflexivity. Qed.
 
+(* AASd-118 on assignment to semantic_id holds for free-standing and for contained objects alike
+   (owner OSem: etype = contained in a namespace; the setter is gen.Gen_SemSetter, translated
+   with its `self.parent` branches and early returns) *)
+Example C02_sem_contained_example :
+  map (fun contained => snd (step OSem (mkSt contained (GOk 0) [1%nat]) (SetGaid GNone))) [true; false]
+  = [Err (EAASd 118); Err (EAASd 118)]
+  /\ run OSem (mkSt false (GOk 0) [1%nat]) [SetType true; SetGaid GNone; Clear; SetGaid GNone; SetType false; Append 2%nat]
+     = mkSt false GNone [].
+Proof. vm_compute. split; reflexivity. Qed.
+
 (* ===== AdministrativeInformation (AASd-005) ================================================= *)
 Theorem C02_adm_ctor : forall v r,
   match actor v r with
